@@ -233,7 +233,7 @@ pub enum Op {
     CloneH { h: usize, new: usize },
     DropSlot { slot: usize },
     /// hand an object (hasher / reader / cv) to another task through the mailbox
-    Send { slot: usize },
+    Send { slot: usize, to: usize },
     Recv { slot: usize },
 
     Read { r: usize, n: usize, via: ReadVia },
